@@ -3,7 +3,6 @@ package logr
 import (
 	"errors"
 	"fmt"
-	"log"
 	"os"
 	"path/filepath"
 	"strings"
@@ -52,7 +51,10 @@ func (l Logr) AddAgentInput(AgentType, AgentID, User, TaskID, Input string, time
 
 	f, err := os.OpenFile(DemonLogFile, os.O_APPEND|os.O_CREATE|os.O_WRONLY, 0644)
 	if err != nil {
-		log.Fatal(err)
+		// a console log that cannot be opened (no descriptor left, disk full, permissions) costs the log
+		// line, not the teamserver: this runs inside the listener's request handlers
+		logger.Error("Failed to open File [" + DemonLogFile + "]: " + err.Error())
+		return
 	}
 	// one descriptor per console line must not wait for the garbage collector
 	defer f.Close()
@@ -88,7 +90,10 @@ func (l Logr) AddAgentRaw(AgentID, Raw string) {
 
 	f, err := os.OpenFile(DemonLogFile, os.O_APPEND|os.O_CREATE|os.O_WRONLY, 0644)
 	if err != nil {
-		log.Fatal(err)
+		// a console log that cannot be opened (no descriptor left, disk full, permissions) costs the log
+		// line, not the teamserver: this runs inside the listener's request handlers
+		logger.Error("Failed to open File [" + DemonLogFile + "]: " + err.Error())
+		return
 	}
 	// one descriptor per console line must not wait for the garbage collector
 	defer f.Close()
@@ -122,7 +127,10 @@ func (l Logr) DemonAddOutput(DemonID string, Output map[string]string, time stri
 
 	f, err := os.OpenFile(DemonLogFile, os.O_APPEND|os.O_CREATE|os.O_WRONLY, 0644)
 	if err != nil {
-		log.Fatal(err)
+		// a console log that cannot be opened (no descriptor left, disk full, permissions) costs the log
+		// line, not the teamserver: this runs inside the listener's request handlers
+		logger.Error("Failed to open File [" + DemonLogFile + "]: " + err.Error())
+		return
 	}
 	// one descriptor per console line must not wait for the garbage collector
 	defer f.Close()
